@@ -85,13 +85,13 @@ def lipschitz(obj):
     if fam == "cones":
         return max(obj["s"])
     if fam == "absum":
-        return math.sqrt(sum(a * a for a in obj["a"]))
+        return math.hypot(*obj["a"])          # hypot: no underflow for coefficients like 1e-170
     if fam == "linear":
-        return math.sqrt(sum(c * c for c in obj["c"]))
+        return math.hypot(*obj["c"])
     if fam == "bowl":
-        return 2.0 * obj["scale"] * math.sqrt(sum(max(abs(p), abs(1.0 - p)) ** 2 for p in obj["p"]))
+        return 2.0 * obj["scale"] * math.hypot(*[max(abs(p), abs(1.0 - p)) for p in obj["p"]])
     if fam == "sines":
-        return math.sqrt(sum((a * w) ** 2 for a, w in zip(obj["a"], obj["w"])))
+        return math.hypot(*[a * w for a, w in zip(obj["a"], obj["w"])])
     if fam == "pwl1":
         t, v = obj["t"], obj["v"]
         return max(abs(v[i] - v[i - 1]) / (t[i] - t[i - 1]) for i in range(1, len(t)))
